@@ -42,6 +42,7 @@ type Req struct {
 	Detail   bool     `json:"detail"`   // use fingerprints (function source, stack traces) instead of abstract canon
 	Progs    []string `json:"progs"`    // session
 	Embed    string   `json:"embed"`    // session: playground | evalenv | runtest
+	Helpers  []string `json:"helpers"`  // session: per program, the source of ./helper.pangaea next to it ("" = none)
 	Dir      string   `json:"dir"`      // session/runtest: scratch directory
 	N        int      `json:"n"`        // conc: goroutines
 	Fresh    bool     `json:"fresh"`    // prog: build a brand-new interpreter environment for this request
